@@ -266,6 +266,61 @@ func (p *Prog) Method(rel, typ, name string) *ssa.Function {
 	return nil
 }
 
+// Body returns the function with a body that f denotes. In a shallow load a callee in another package of the module is an
+// export-data stub; when that package is also loaded from source its declaration is found by package, receiver and name.
+func (p *Prog) Body(f *ssa.Function) *ssa.Function {
+	if f == nil || f.Blocks != nil {
+		return f
+	}
+	obj, ok := f.Object().(*types.Func)
+	if !ok || obj.Pkg() == nil || !strings.HasPrefix(obj.Pkg().Path(), modPath) {
+		return f
+	}
+	rel := strings.TrimPrefix(strings.TrimPrefix(obj.Pkg().Path(), modPath), "/")
+	if p.byRel[rel] == nil {
+		return f
+	}
+	sig := obj.Type().(*types.Signature)
+	var g *ssa.Function
+	if sig.Recv() == nil {
+		g = p.Fn(rel, obj.Name())
+	} else {
+		g = p.Method(rel, recvName(sig.Recv().Type()), obj.Name())
+	}
+	if g != nil && g.Blocks != nil {
+		return g
+	}
+	return f
+}
+
+// CrossReach is staticReach that follows calls into other source-loaded packages of the module (see Body).
+func (p *Prog) CrossReach(roots []*ssa.Function, pkgPrefixes ...string) []*ssa.Function {
+	seen := map[*ssa.Function]bool{}
+	var out []*ssa.Function
+	work := append([]*ssa.Function(nil), roots...)
+	for len(work) > 0 {
+		var next []*ssa.Function
+		for _, f := range staticReach(work, pkgPrefixes...) {
+			if seen[f] {
+				continue
+			}
+			seen[f] = true
+			out = append(out, f)
+			eachInstr(f, func(_ *ssa.BasicBlock, in ssa.Instruction) {
+				if call, ok := in.(ssa.CallInstruction); ok {
+					if sc := call.Common().StaticCallee(); sc != nil && sc.Blocks == nil {
+						if g := p.Body(sc); g != sc && !seen[g] {
+							next = append(next, g)
+						}
+					}
+				}
+			})
+		}
+		work = next
+	}
+	return out
+}
+
 // Funcs returns every source function (package functions, methods, closures) of
 // the given packages, in a deterministic order.
 func (p *Prog) Funcs(rels ...string) []*ssa.Function {
